@@ -469,4 +469,58 @@ def groupLookupRound (r : SfResult) (ownCtxEnded : Bool) : GlOut :=
     else .lookupErr
   else .value
 
+/-! ## 6. contextutil.EffectiveError -/
+
+/-- `func EffectiveError(ctx) error`: the context's own error if it has
+published one, else DeadlineExceeded as soon as the wall clock has reached
+the deadline (the timer goroutine may not have run yet), else nil. -/
+def effectiveError (err : CtxErr) (hasDeadline clockPast : Bool) : CtxErr :=
+  if err ≠ .none then err else if hasDeadline && clockPast then .deadline else .none
+
+/-- a request that reaches `Cache.ServeDNS` on the miss path with the given
+context: `leader` — no generation registered; follower — parked behind a
+leader that then finishes (`byLeader`) or woken by its own Done channel.
+The result is the terminated process. -/
+def procScenario (limit : Nat) (leader : Bool) (ctx : CtxErr) (byLeader : Bool) : Proc :=
+  let p0 : Proc := { key := 1, ctx := ctx }
+  if leader then
+    let p1 := p0.step limit { gen := 0, leader := true }
+    (p1.step limit {}).step limit {}
+  else
+    let p1 := p0.step limit { gen := 0, leader := false }
+    let p2 := p1.step limit { genClosed := byLeader }
+    ((p2.step limit {}).step limit {})
+
+/-! ## 7. the UDP worker's TX burst -/
+
+/-- what a worker does next -/
+inductive WEv
+  | quick (id : Nat)   -- a request answered on the fast path: its reply is staged on the burst
+  | slow (id : Nat)    -- a request that leaves the fast path (FlushStaged), resolves, then stages its reply
+  | idle               -- the ready queue is empty: the worker flushes before it blocks
+deriving DecidableEq, Repr
+
+structure Worker where
+  staged : List Nat := []
+  sent : List Nat := []
+  /-- ghost: (reply, slow request) pairs — replies that sat staged while that request resolved -/
+  held : List (Nat × Nat) := []
+deriving DecidableEq, Repr
+
+/-- `udpEngine.worker` / `serve` / `udpJob.FlushStaged` / `flushTX` -/
+def Worker.step (w : Worker) : WEv → Worker
+  | .quick id => { w with staged := w.staged ++ [id] }
+  | .slow id =>
+    let flushed : Worker := { w with sent := w.sent ++ w.staged, staged := [] }   -- FlushStaged at the detach
+    { flushed with held := flushed.held ++ flushed.staged.map (fun r => (r, id)), staged := [id] }
+  | .idle => { w with sent := w.sent ++ w.staged, staged := [] }
+
+def Worker.run (w : Worker) : List WEv → Worker
+  | [] => w
+  | e :: es => Worker.run (w.step e) es
+
+def WEv.reply : WEv → Option Nat
+  | .quick id | .slow id => some id
+  | .idle => none
+
 end SdnsVerif.Model.OneReply
